@@ -618,7 +618,10 @@ class Interp:
             if c.get("ck") == "val":
                 if tk == "bool":
                     return TRUE if c["v"] else FALSE
-                return cint(c["v"], ty["w"], ty["sg"])
+                v_ = c["v"]
+                if ty["sg"] and v_ >= (1 << (ty["w"] - 1)):
+                    v_ -= 1 << ty["w"]        # valtree leaves are raw bits
+                return cint(v_, ty["w"], ty["sg"])
             raise Unsupported("type-level const " + str(c))
         if "destructured" in o:
             v = self.value_of_destructured(o["destructured"])
